@@ -295,4 +295,40 @@ def verifyPriority {SK PK Proof Rand} (V : Vrf SK PK Proof Rand) (cdf : F64 → 
       if j % 2 ^ 32 ≠ subUsers then .subUsersMismatch
       else if computePriority K hash j = priority then .accept else .priorityMismatch
 
+/-! ### the node-level verifiers of sortition_verifier.go (after their look-back reads succeeded) -/
+
+inductive NodeVerdict where
+  | accept   -- returns nil
+  | refuse   -- returns an error
+  | crash
+  deriving Repr, DecidableEq
+
+/-- `Server.verifyPriority`: `if err != nil || !isValid { …; return err }`. `VrfVerifyPriority` reports a priority
+    mismatch as `(false, nil)`; since repo commit "fix: Server.verifyPriority refuses a priority VrfVerifyPriority found
+    invalid" that case returns an error too (before it returned the nil `err`: finding F-C04a). -/
+def nodePriorityOutcome : Verdict → NodeVerdict
+  | .accept => .accept
+  | .crash => .crash
+  | _ => .refuse
+
+/-- the node's own position, read by `verifySortition`'s leniency -/
+structure NodeCtx where
+  round : Nat
+  roundIndex : Nat
+
+/-- `Server.verifySortition`: a credential that does NOT verify is nevertheless accepted (`return nil`) when
+    `data.Round < s.currentRound || data.RoundIndex < s.roundIndex` (the second test ignores the round). -/
+def nodeSortitionOutcome (ctx : NodeCtx) (msgRound msgIndex : Nat) : Verdict → NodeVerdict
+  | .accept => .accept
+  | .crash => .crash
+  | _ => if msgRound < ctx.round ∨ msgIndex < ctx.roundIndex then .accept else .refuse
+
+def serverVerifyPriority {SK PK Proof Rand} (V : Vrf SK PK Proof Rand) (cdf : F64 → Nat → F64) (K : List UInt8 → List UInt8)
+    (pk : PK) (seed : List UInt8) (index role : Nat) (proof : Proof) (priority : List UInt8) (subUsers : Nat) (s : Stakes) : NodeVerdict :=
+  nodePriorityOutcome (verifyPriority V cdf K pk seed index role proof priority subUsers s)
+
+def serverVerifySortition {SK PK Proof Rand} (V : Vrf SK PK Proof Rand) (cdf : F64 → Nat → F64) (ctx : NodeCtx) (msgRound : Nat)
+    (pk : PK) (seed : List UInt8) (index role : Nat) (proof : Proof) (subUsers : Nat) (s : Stakes) : NodeVerdict :=
+  nodeSortitionOutcome ctx msgRound index (verifySortition V cdf pk seed index role proof subUsers s)
+
 end YouVerif.C04
